@@ -146,6 +146,9 @@ type FederatingWrappedCallbacks struct {
 // If the given functions have a type that collides with the default behavior,
 // then disable our default behavior
 func (w FederatingWrappedCallbacks) callbacks(fns []interface{}) []interface{} {
+	// The slice belongs to the application, which may hand the same one to
+	// every request: never append into its spare capacity.
+	fns = fns[:len(fns):len(fns)]
 	enableCreate := true
 	enableUpdate := true
 	enableDelete := true
